@@ -107,6 +107,15 @@ def one(ctx, data, meta=None):
             proj = lambda r: {'hs': r.get('hs'), 'rs': r.get('rs')}
             d = first_diff([proj(r) for r in flat(a['ok'], 4)], [proj(r) for r in flat(b['ok'], 4)])
             if d: ctx.diff(f'style lists of {v}_pars', case, d[1], d[2], path=d[0]); good = False
+    # the hypothesis of C07_run_string / C07_paragraph_string (GoodStyle: a style string has no angle bracket and begins with its
+    # tag name) evaluated on every style string the implementation produced: the theorems apply to what the grammar generates
+    for v in VIEWS[:5]:
+        a = ih.get(v + '_pars')
+        if a and 'ok' in a:
+            for r in flat(a['ok'], 4):
+                for st in list(r.get('hs') or []) + [x for run in (r.get('rs') or []) for x in run[0]]:
+                    okst = ('<' not in st) and ('>' not in st) and st[:1] not in ('', '/', ' ', '\t', '\n', '\r', '\x0b', '\x0c')
+                    ctx.count('style string satisfies GoodStyle' if okst else 'style string outside GoodStyle (theorem hypothesis not met)')
     exp = {}
     for path, root in parts.items():
         for p in src.paragraphs(root, path):
